@@ -23,6 +23,7 @@ import (
 	"sort"
 	"strings"
 	"testing"
+	"time"
 
 	"github.com/osrg/gobgp/v4/api"
 	"github.com/osrg/gobgp/v4/internal/pkg/verifkit"
@@ -42,6 +43,7 @@ const (
 	c17DelVrf
 	c17VPN2Announce // a second VPN source announces the same (RD, prefix) with a longer AS_PATH
 	c17VPN2Withdraw
+	c17QFlap // Q's session is lost (no graceful restart) and comes back: its memberships are gone, it starts from nothing
 	c17Ops
 )
 
@@ -99,7 +101,7 @@ func drawC17(t *rapid.T) c17Case {
 	n := rapid.IntRange(3, 30).Draw(t, "nops")
 	for i := 0; i < n; i++ {
 		l := fmt.Sprintf("o%d", i)
-		op := c17Op{Kind: rapid.SampledFrom([]int{c17VPNAnnounce, c17VPNAnnounce, c17VPNAnnounce, c17VPNWithdraw, c17VPNWithdraw, c17CEAnnounce, c17CEAnnounce, c17CEWithdraw, c17Member, c17Member, c17Unmember, c17AddVrf, c17DelVrf, c17VPN2Announce, c17VPN2Announce, c17VPN2Withdraw}).Draw(t, l+"k"),
+		op := c17Op{Kind: rapid.SampledFrom([]int{c17VPNAnnounce, c17VPNAnnounce, c17VPNAnnounce, c17VPNWithdraw, c17VPNWithdraw, c17CEAnnounce, c17CEAnnounce, c17CEWithdraw, c17Member, c17Member, c17Unmember, c17AddVrf, c17DelVrf, c17VPN2Announce, c17VPN2Announce, c17VPN2Withdraw, c17QFlap}).Draw(t, l+"k"),
 			A: rapid.IntRange(0, 3).Draw(t, l+"a"), RD: rapid.IntRange(0, 1).Draw(t, l+"rd"), Origin: rapid.IntRange(0, 1).Draw(t, l+"orig"), CE: rapid.IntRange(0, 1).Draw(t, l+"ce")}
 		if op.Kind == c17VPNAnnounce || op.Kind == c17VPN2Announce {
 			// a list, not a set: a target may be repeated
@@ -547,6 +549,18 @@ func (r *c17Run) apply(op c17Op) *verifkit.Failure {
 		_ = r.sq.send(bgp.NewBGPUpdateMessage(nil, attrs, nil), nil)
 		r.member[key] = true
 		r.logf("Q announces membership %s", key)
+	case c17QFlap:
+		r.n.settle()
+		r.sq.close()
+		r.n.settle()
+		r.n.advance(6 * time.Second) // idle hold time
+		ss, _, err := r.n.establish(r.q.def(), simOpenSpec{Families: []uint32{uint32(bgp.RF_IPv4_VPN), uint32(bgp.RF_RTC_UC)}, RR: true})
+		if err != nil {
+			return r.fail("establish", "Q again: %v", err)
+		}
+		r.sq, r.vq = ss, &c17View{entries: map[string]string{}}
+		r.member = map[string]bool{}
+		r.logf("Q's session lost and re-established")
 	case c17AddVrf:
 		if r.v2 {
 			return nil
